@@ -46,7 +46,7 @@ def permute {α : Type} (n : Nat) (l : List α) : List α :=
     is non-nil, i.e. the side map is non-empty or the caller filled it) and the entry CAS, which
     leaves the caller's `Values` in the entry. -/
 def statusWrite (c : Cfg) (applied : VMap) (values : VMap) (u : CfgUpd) (oc : OnConflict) : List Effect :=
-  (if applied.isEmpty then [] else [.cfgVals c.target applied]) ++
+  (if applied.isEmpty then [] else [.cfgAVals c.target applied]) ++
     [.cfg c.target c.version u (some values) [] oc]
 
 def propInitialize (s : Sys) (p : Proposal) : Plan :=
